@@ -495,6 +495,14 @@ func harnessAPI(name string) (IntrinsicFn, bool) {
 			}
 			return Sc{e.present}
 		}, true
+	case "verifSetEnv":
+		return func(in *Interp, _ *frame, fn *ssa.Function, args []Value, _ tokenPos) Value {
+			in.ghost["env:yield"] = args[0]
+			if f, ok := args[1].(FuncV); ok && !f.Nil {
+				in.ghost["env:blocked"] = args[1]
+			}
+			return nil
+		}, true
 	case "verifNewLevelDB":
 		return func(in *Interp, _ *frame, fn *ssa.Function, args []Value, _ tokenPos) Value {
 			et := fn.Signature.Results().At(0).Type().(*types.Pointer).Elem()
